@@ -298,6 +298,7 @@ type App struct {
 	SlowSeq []time.Duration
 	SlowEnd time.Time
 	SlowDone int
+	SlowOut []time.Duration // the same for ToAdmin of messages other than the Logon
 }
 
 func (a *App) slow() {
@@ -386,8 +387,22 @@ func (a *App) OnCreate(quickfix.SessionID) { a.rec("OnCreate", nil) }
 func (a *App) OnLogon(quickfix.SessionID)  { a.rec("OnLogon", nil); simsync.Yield("app:OnLogon") }
 func (a *App) OnLogout(quickfix.SessionID) { a.rec("OnLogout", nil); simsync.Yield("app:OnLogout") }
 func (a *App) ToAdmin(m *quickfix.Message, _ quickfix.SessionID) {
-	a.rec("ToAdmin", m)
+	c := a.rec("ToAdmin", m)
 	simsync.Yield("app:ToAdmin")
+	if c.Type != "A" {
+		// a slow outbound callback (SlowOut): the session goroutine is held up while SENDING an admin message
+		a.mu.Lock()
+		var d time.Duration
+		if len(a.SlowOut) > 0 {
+			d = a.SlowOut[0]
+			a.SlowOut = a.SlowOut[1:]
+		}
+		a.mu.Unlock()
+		if d > 0 {
+			a.env.Stat("fault_slow_outbound_callback")
+			time.Sleep(d)
+		}
+	}
 }
 func (a *App) ToApp(m *quickfix.Message, _ quickfix.SessionID) error {
 	c := a.rec("ToApp", m)
